@@ -1,10 +1,11 @@
 (* Properties_C19.v — C19 "pluggable memory manager: balanced use, allocation failure is survivable":
-   theorems about the allocation-ledger model (MemDefs.v) of XalanVector, XalanList and ArenaAllocator.
+   theorems about the allocation-ledger model (MemDefs.v) of XalanVector, XalanList and ArenaAllocator, for the
+   code with the repairs of K8 (no allocation inside destructors), K23 and K-new-4.
    The heap is the manager's table: [live] = outstanding blocks with the manager that handed them out,
    [bad] = a deallocate of a block not outstanding in that manager happened (foreign or double free),
    [fuse] = failure injection (Some k: the allocation after k successful ones is refused, once). *)
 From Coq Require Import List Arith Bool Lia Permutation.
-Require Import XV.GenCont XV.GenMem XV.MemDefs XV.MemModel XV.MemListModel XV.MemArenaModel XV.MemMapDefs.
+Require Import XV.GenCont XV.GenMem XV.MemDefs XV.MemModel XV.MemListModel XV.MemArenaModel XV.MemMapDefs XV.MemMapModel.
 Import ListNotations.
 
 (* the shapes of the source that the model follows (regenerated from /repo on every run) *)
@@ -14,7 +15,9 @@ Theorem source_shape :
   list_head_lazy = true /\ list_swap_swaps_manager = true /\ list_erase_recycles = true /\
   arena_dtor_resets = true /\ arena_create_then_push = true /\ arenablock_dtor_all_objects = true /\
   arenablock_dtor_frees_storage = true /\ map_dtor_guard_buckets = true /\ map_dtor_frees_values = true /\
-  map_clear_recycles = true /\ map_value_before_node = true.
+  map_clear_recycles = true /\ map_value_before_node = true /\
+  list_empty_nonallocating = true /\ list_clear_guarded = true /\ list_fresh_node_terminated = true /\
+  arena_reset_guarded = true /\ map_bucket_push_guarded = true.
 Proof. repeat split; reflexivity. Qed.
 Print Assumptions source_shape.
 
@@ -109,10 +112,11 @@ Proof.
 Qed.
 Print Assumptions list_dtor_never_allocates.
 
-(* ... but a read-only query on a fresh list does allocate (begin()/end()/empty()/size()) *)
-Example list_empty_allocates :
-  let '(h, _, ok) := lstep (LEmpty false) lworld0 (heap0 None) in (ok, log h) = (true, [EAlloc 0 TAG_LNODE 1 0]).
-Proof. reflexivity. Qed.
+(* empty() / size() / clear() on a fresh list do not create the head node any more (they did before the K8 repair) *)
+Example list_empty_does_not_allocate :
+  lstep (LEmpty false) lworld0 (heap0 None) = (heap0 None, lworld0, true) /\
+  lstep (LClear false) lworld0 (heap0 None) = (heap0 None, lworld0, true).
+Proof. split; reflexivity. Qed.
 
 (* ---------------- ArenaAllocator<Obj, ArenaBlock<Obj>> *)
 
@@ -124,113 +128,93 @@ Proof.
   intros ops bs a h h1 a1 ok R D.
   destruct (arun_inv _ _ _ _ _ (ainv0 0 bs None) R) as [V FZ].
   destruct (FZ eq_refl) as [LK F1]. cbn in LK.
-  destruct (arena_dtor_spec _ _ _ _ _ V D) as [OK [_ [_ FZ2]]].
-  specialize (FZ2 F1). subst ok. destruct (OK eq_refl) as [P B]. rewrite LK in P.
+  destruct (arena_dtor_spec _ _ _ _ _ V D) as [OK [P [B _]]]. rewrite LK in P.
   split; auto. split; auto. apply Permutation_nil. apply Permutation_sym. exact P.
 Qed.
 Print Assumptions arena_ledger_balanced.
 
-(* alloc_failure_safe, full statement ("destruction balances the ledger after a refusal"): REFUTED.
-   allocateBlock() does  m_blocks.push_back(ArenaBlockType::create(...)) : when the list node cannot be
-   allocated the freshly created block (its struct and its storage) is lost *)
+(* alloc_failure_safe, full statement ("destruction balances the ledger after a refusal"): REFUTED (K-new-1).
+   allocateBlock() does  m_blocks.push_back(ArenaBlockType::create(...)) : when the head node or the list node
+   cannot be allocated the freshly created block (its struct and its storage) is lost *)
 Theorem arena_alloc_failure_safe_refuted :
-  exists f bs ops, r_dtor_ok (arena_case f bs ops) = true /\ r_outstanding (arena_case f bs ops) = 2 /\
-                   r_bad (arena_case f bs ops) = false.
-Proof. exists (Some 3), 2, [ANew 8]. vm_compute. auto. Qed.
+  (exists f bs ops, r_dtor_ok (arena_case f bs ops) = true /\ r_outstanding (arena_case f bs ops) = 2 /\
+                    r_bad (arena_case f bs ops) = false) /\
+  r_outstanding (arena_case (Some 2) 2 [ANew 8]) = 2.
+Proof. split; [exists (Some 3), 2, [ANew 8]|]; vm_compute; auto. Qed.
 Print Assumptions arena_alloc_failure_safe_refuted.
 
-(* what does hold with refusals anywhere: no foreign / double free ever; every step leaks nothing or exactly
-   the two blocks of one ArenaBlock, and only a refused step can leak; when the destructor completes, what is
-   outstanding is exactly the leaked blocks *)
+(* what does hold with refusals anywhere: no foreign / double free ever; every step leaks nothing or exactly the
+   two blocks of one ArenaBlock, and only a refused step can leak; the destructor always completes and what is
+   then outstanding is exactly the leaked blocks *)
 Theorem arena_alloc_failure_safe_partial : forall (ops : list aop) (f : option nat) (bs : nat) a h,
   run _ _ astep ops (arena0 0 bs) (heap0 f) = (a, h) ->
   bad h = false /\
   (forall op h1 a1 ok, astep op a h = (h1, a1, ok) ->
      bad h1 = false /\ leak_step a a1 /\ (ok = true -> aleak a1 = aleak a)) /\
-  (forall h1 a1, arena_dtor a h = (h1, a1, true) -> Permutation (live h1) (aleak a) /\ bad h1 = false).
+  (forall h1 a1 ok, arena_dtor a h = (h1, a1, ok) -> ok = true /\ Permutation (live h1) (aleak a) /\ bad h1 = false).
 Proof.
   intros ops f bs a h R.
   destruct (arun_inv _ _ _ _ _ (ainv0 0 bs f) R) as [V _].
   split; [apply V|]. split.
   - intros op h1 a1 ok S. destruct (astep_inv _ _ _ _ _ _ V S) as [V1 [_ [LS [OK _]]]].
     split; [apply V1|]. auto.
-  - intros h1 a1 D. destruct (arena_dtor_spec _ _ _ _ _ V D) as [OK _]. apply OK. reflexivity.
+  - intros h1 a1 ok D. destruct (arena_dtor_spec _ _ _ _ _ V D) as [OK [P [B _]]]. auto.
 Qed.
 Print Assumptions arena_alloc_failure_safe_partial.
 
-(* dtor_never_allocates: REFUTED (known finding K8).  ~ArenaAllocator calls reset(), reset() calls
-   m_blocks.begin(), and XalanList::begin() allocates the sentinel of a list that was never used.  If the
-   manager refuses there, the exception leaves a destructor (std::terminate). *)
-Theorem dtor_never_allocates_refuted :
-  (exists bs, let '(h1, _, ok) := arena_dtor (arena0 0 bs) (heap0 None) in ok = true /\ next h1 <> 0) /\
-  (exists bs, let '(h1, _, ok) := arena_dtor (arena0 0 bs) (heap0 (Some 0)) in ok = false /\ log h1 = [EThrow]).
-Proof. split; exists 4; vm_compute; split; auto; discriminate. Qed.
-Print Assumptions dtor_never_allocates_refuted.
-
-(* under the exact guard "the block list has its sentinel" (= the allocator was used at least once) the
-   destructor never calls allocate and cannot fail *)
-Theorem dtor_never_allocates_partial : forall (ops : list aop) (f : option nat) (bs : nat) a h h1 a1 ok,
+(* dtor_never_allocates, now a full theorem (it was refuted before the K8 repair: reset() called begin() on a
+   block list that was never used): in every reachable state, whatever was refused before, ~ArenaAllocator
+   completes without calling the manager's allocate *)
+Theorem arena_dtor_never_allocates : forall (ops : list aop) (f : option nat) (bs : nat) a h h1 a1 ok,
   run _ _ astep ops (arena0 0 bs) (heap0 f) = (a, h) ->
-  lhead (alist a) <> None ->
   arena_dtor a h = (h1, a1, ok) -> ok = true /\ next h1 = next h /\ fuse h1 = fuse h.
 Proof.
-  intros ops f bs a h h1 a1 ok R HD D.
+  intros ops f bs a h h1 a1 ok R D.
   destruct (arun_inv _ _ _ _ _ (ainv0 0 bs f) R) as [V _].
-  destruct (arena_dtor_spec _ _ _ _ _ V D) as [_ [_ [HH _]]]. apply HH. exact HD.
+  destruct (arena_dtor_spec _ _ _ _ _ V D) as [OK [_ [_ X]]]. auto.
 Qed.
-Print Assumptions dtor_never_allocates_partial.
+Print Assumptions arena_dtor_never_allocates.
 
-(* the guard is exact: in a reachable state without the sentinel the destructor does call allocate *)
-Theorem dtor_guard_exact : forall (ops : list aop) (f : option nat) (bs : nat) a h h1 a1 ok,
-  run _ _ astep ops (arena0 0 bs) (heap0 f) = (a, h) ->
-  lhead (alist a) = None -> arena_dtor a h = (h1, a1, ok) -> next h1 <> next h \/ fuse h1 <> fuse h.
+(* regression of the K8 witness: a never-used allocator, with the very next allocation to be refused *)
+Example arena_dtor_unused :
+  arena_dtor (arena0 0 4) (heap0 (Some 0)) = (heap0 (Some 0), arena0 0 4, true).
+Proof. reflexivity. Qed.
+
+(* ---------------- XalanMap (ledger model tied by correspondence; one general theorem, the rest witnesses) *)
+
+(* dtor_never_allocates for XalanMap, a full theorem with the K8 repair: in every state reachable by insert / erase /
+   clear / operator= / swap on two maps, with a refusal anywhere, ~XalanMap (on any heap) completes and never calls
+   the manager's allocate - because whenever the map has an entry, live or free, the free-entries list has its head
+   node (invariant mheads_ok), and m_freeEntries.begin() is only reached for a non-empty free list *)
+Theorem map_dtor_never_allocates : forall (ops : list mop) (f : option nat) (minb thr : nat) w h (i : bool) h' h1 ok,
+  run _ _ mstep ops (map0 0 minb thr, map0 1 minb thr) (heap0 f) = (w, h) ->
+  map_dtor (sel i w) h' = (h1, ok) -> ok = true /\ next h1 = next h' /\ fuse h1 = fuse h'.
 Proof.
-  intros ops f bs a h h1 a1 ok R HD D.
-  destruct (arun_inv _ _ _ _ _ (ainv0 0 bs f) R) as [[[Wl Wb] _] _].
-  destruct (Wl HD) as [N Fr]. specialize (Wb HD).
-  destruct a as [[m hd nodes fr] blocks sz lk]. cbn in *. subst.
-  unfold arena_dtor, arena_reset, get_head in D. cbn in D.
-  destruct (alloc m TAG_ANODE 1 h) as [h2 [id|]] eqn:A; cbn in D; inversion D; subst; clear D.
-  - left. apply alloc_some in A. destruct A as [_ [_ [_ Nx]]]. cbn. lia.
-  - eapply alloc_visible; eauto.
+  intros ops f minb thr w h i h' h1 ok R D.
+  pose proof (mrun_heads _ _ _ _ _ (mheads20 minb thr) R) as W.
+  eapply map_dtor_no_alloc; [apply mheads2_sel; exact W | exact D].
 Qed.
-Print Assumptions dtor_guard_exact.
+Print Assumptions map_dtor_never_allocates.
 
-Example arena_guard_satisfiable :
-  let '(a, h) := run _ _ astep [ANew 8] (arena0 0 2) (heap0 None) in lhead (alist a) <> None.
-Proof. vm_compute. discriminate. Qed.
-
-(* ---------------- XalanMap (model tied by correspondence only; the statements below are witnesses) *)
-
-(* dtor_never_allocates is refuted for XalanMap too: the copy of an empty map has one bucket and a free-entries
-   list that was never used; ~XalanMap calls m_freeEntries.begin() because m_buckets is not empty *)
-Theorem map_dtor_never_allocates_refuted :
-  r_dtor_events (map_case None 3 3 [MAssign true]) =
-    [EFree 0 1; EAlloc 1 TAG_MNODE 1 2; EFree 1 0; EFree 1 2] /\
-  r_dtor_ok (map_case (Some 2) 3 3 [MAssign true]) = false.
+(* regression of the K8 witness: the copy of an empty map (one bucket, free list never used) *)
+Example map_dtor_copy_of_empty :
+  r_dtor_events (map_case None 3 3 [MAssign true]) = [EFree 0 1; EFree 1 0] /\
+  r_dtor_ok (map_case (Some 2) 3 3 [MAssign true]) = true.
 Proof. split; vm_compute; reflexivity. Qed.
-Print Assumptions map_dtor_never_allocates_refuted.
 
-(* ... and the refusal can come from inside operator= (its temporary is destroyed): std::terminate during an
-   operation, not only at the end *)
-Theorem map_assign_terminates_refuted :
-  exists f ops, existsb (fun s => negb (fst (fst s))) (r_steps (map_case f 3 3 ops)) = true /\
-    last (map (fun s => last (snd (fst s)) EThrow) (r_steps (map_case f 3 3 ops))) EThrow = EThrow.
-Proof.
-  exists (Some 26), [MInsert true 5; MAssign true; MErase true 27; MInsert false 36; MInsert false 5; MAssign true].
-  vm_compute. split; reflexivity.
-Qed.
-Print Assumptions map_assign_terminates_refuted.
-
-(* alloc_failure_safe for XalanMap, "destruction balances the ledger after a refusal": refuted.
-   doCreateEntry does m_freeEntries.push_back(Entry(allocate(1))): the value block is lost when the node cannot
-   be allocated (1); and a refused bucket push_back leaves the new entry in m_entries, in no bucket, with m_size
-   not incremented (2) - the state behind the SIGSEGV of known finding K23 *)
+(* alloc_failure_safe for XalanMap, "destruction balances the ledger after a refusal": still refuted (K-new-2):
+   doCreateEntry does m_freeEntries.push_back(Entry(allocate(1))): the value block is lost when the head node or
+   the entry node of the free list cannot be allocated *)
 Theorem map_alloc_failure_safe_refuted :
-  r_outstanding (map_case (Some 4) 3 3 [MInsert false 1; MInsert false 2]) = 1 /\
-  r_outstanding (map_case (Some 5) 3 3 [MInsert false 1; MInsert false 2]) = 1 /\
-  (let '(h, w, ok) := mstep (MInsert false 1) (map0 0 3 3, map0 1 3 3) (heap0 (Some 5)) in
-   ok = false /\ length (mentries (fst w)) = 1 /\ msize (fst w) = 0 /\
-   forallb (fun b => match brefs b with [] => true | _ => false end) (mbuckets (fst w)) = true).
-Proof. split; [|split]; vm_compute; auto. Qed.
+  r_outstanding (map_case (Some 3) 3 3 [MInsert false 1; MInsert false 2]) = 1 /\
+  r_outstanding (map_case (Some 4) 3 3 [MInsert false 1; MInsert false 2]) = 1.
+Proof. split; vm_compute; reflexivity. Qed.
 Print Assumptions map_alloc_failure_safe_refuted.
+
+(* regression of K23: a refused bucket push_back now leaves the map as it was (no live entry outside the buckets,
+   m_size = number of live entries, the entry is back on the free list, erased), and nothing is lost *)
+Example map_bucket_refusal_repaired :
+  (let '(h, w, ok) := mstep (MInsert false 1) (map0 0 3 3, map0 1 3 3) (heap0 (Some 5)) in
+   ok = false /\ mentries (fst w) = [] /\ msize (fst w) = 0 /\ map eerased (mfrees (fst w)) = [true]) /\
+  r_outstanding (map_case (Some 5) 3 3 [MInsert false 1; MInsert false 2]) = 0.
+Proof. split; vm_compute; auto. Qed.
